@@ -1370,6 +1370,15 @@ def main(repo: str, outdir: str, dry: bool = False) -> int:
             raise TranslateError(str(e))
         return HEADER + "namespace Optyx.Generated\n\n" + body + "\nend Optyx.Generated\n"
 
+    def f_symjac():
+        import py2lean_symjac
+        try:
+            body = py2lean_symjac.gen_symbolic_jac(src("core/autodiff.py"))
+        except py2lean_symjac.TranslateError as e:
+            raise TranslateError(str(e))
+        return (HEADER + "import Optyx.Syntax\n\nnamespace Optyx.Generated\nopen Optyx\n\n" + body
+                + "\nend Optyx.Generated\n")
+
     def f_lpfast():
         import py2lean_lpfast
         try:
@@ -1431,7 +1440,7 @@ def main(repo: str, outdir: str, dry: bool = False) -> int:
                         ("DegreeStep", f_degstep), ("GradStep", f_gradstep), ("LPStep", f_lpstep), ("JacRowVec", f_jacrowvec),
                         ("ScipyPost", f_scipypost), ("ProblemEdit", f_problemedit),
                         ("ConstraintFns", f_constraintfns), ("SvsStep", f_svs), ("BuildStep", f_buildstep), ("Operators", f_operators), ("GradIterCtl", f_graditer), ("LPFast", f_lpfast), ("HookShape", f_hookshape), ("ClosurePaths", f_closurepaths), ("EvalStep", f_evalstep),
-                        ("VarsStep", f_varsstep), ("DegreeEntry", f_degentry)):
+                        ("VarsStep", f_varsstep), ("DegreeEntry", f_degentry), ("SymbolicJac", f_symjac)):
         path = os.path.join(outdir, fname + ".lean")
         try:
             text = make()
